@@ -87,8 +87,9 @@ FidelityNext == /\ \/ node = 0 /\ node' \in {1 + Shard * s : s \in 0..((Len(G) -
 Init == IF Mode = "fidelity" THEN FidelityInit ELSE MonitorInit
 Next == IF Mode = "fidelity" THEN FidelityNext ELSE MonitorNext
 
+(* fidelity mode only reports (PrintT is TRUE): a mismatch is DRIFT, never a verdict *)
 Judge == \/ ok
-         \/ Mode = "fidelity" /\ ~PrintT(<<"VF", "DRIFT", node>>)
+         \/ Mode = "fidelity" /\ PrintT(<<"VF", "DRIFT", node>>)
          \/ Mode # "fidelity" /\ ((Target # "" /\ lastIn.sig # Target) \/ ~PrintT(<<"VF", "BAD", node, lastIn.sig>>))
 
 ASSUME \A n \in 1..Len(G) : G[n].id = n /\ \A j \in 1..Len(G[n].succ) : G[n].succ[j][5] \in 1..Len(G)
